@@ -55,6 +55,7 @@ def w_line(h, ty, unit, count, vals):
 def normalise(line):
     line = re.sub(r"err=(?!0\b)-?\d+", "err=E", line)
     line = re.sub(r"msglen=\d+", "", line).rstrip()
+    line = re.sub(r" fd_open=\d", "", line)         # descriptor hygiene is C14's business
     return line
 
 
